@@ -70,6 +70,12 @@ pub trait HX {
     /// one call through that client: `Some(Some(v))` = Ok with the typed response re-serialised, `Some(None)` = Err,
     /// `None` = the client has no such call (or the order cannot be built as a typed `Order`)
     fn client_call(c: &mut Self::C, op: &str, bt: u64, t: &[&str]) -> impl std::future::Future<Output = Option<Option<Value>>>;
+    /// the in-process test client of the service (`uistv1_client::TestClient`; Jura has none), built by its only
+    /// constructor `single`
+    type T;
+    fn tclient(name: &str, data: Penelope) -> Option<Self::T>;
+    fn tclient_call(c: &mut Self::T, op: &str, bt: u64, t: &[&str]) -> impl std::future::Future<Output = Option<Option<Value>>>;
+    fn tclient_state(c: &Self::T) -> &Self::A;
 }
 
 fn tv<T: serde::Serialize, E>(r: Result<T, E>) -> Option<Option<Value>> {
@@ -101,20 +107,33 @@ impl HX for U {
         Self::C::new(path)
     }
     async fn client_call(c: &mut Self::C, op: &str, bt: u64, t: &[&str]) -> Option<Option<Value>> {
-        use rotala::http::uist::uistv1_client::UistClient;
-        match op {
-            "INIT" => tv(c.init(t[1].to_string()).await),
-            "INS" => {
-                let px = if t[5] == "-" { None } else { Some(pf(t[5])) };
-                tv(c.insert_order(uist::mk_order(pu(t[2]), t[3], pf(t[4]), px), bt).await)
-            }
-            "DEL" => tv(c.delete_order(pu(t[2]), bt).await),
-            "TICK" => tv(c.tick(bt).await),
-            "FETCH" => tv(c.fetch_quotes(bt).await),
-            "NOW" => tv(c.now(bt).await),
-            "INFO" => tv(c.info(bt).await),
-            _ => None,
+        ucall(c, op, bt, t).await
+    }
+    type T = rotala::http::uist::uistv1_client::TestClient;
+    fn tclient(name: &str, data: Penelope) -> Option<Self::T> {
+        Some(Self::T::single(name, data))
+    }
+    async fn tclient_call(c: &mut Self::T, op: &str, bt: u64, t: &[&str]) -> Option<Option<Value>> {
+        ucall(c, op, bt, t).await
+    }
+    fn tclient_state(c: &Self::T) -> &Self::A {
+        c.verif_state()
+    }
+}
+
+async fn ucall<C: rotala::http::uist::uistv1_client::UistClient>(c: &mut C, op: &str, bt: u64, t: &[&str]) -> Option<Option<Value>> {
+    match op {
+        "INIT" => tv(c.init(t[1].to_string()).await),
+        "INS" => {
+            let px = if t[5] == "-" { None } else { Some(pf(t[5])) };
+            tv(c.insert_order(uist::mk_order(pu(t[2]), t[3], pf(t[4]), px), bt).await)
         }
+        "DEL" => tv(c.delete_order(pu(t[2]), bt).await),
+        "TICK" => tv(c.tick(bt).await),
+        "FETCH" => tv(c.fetch_quotes(bt).await),
+        "NOW" => tv(c.now(bt).await),
+        "INFO" => tv(c.info(bt).await),
+        _ => None,
     }
 }
 
@@ -165,6 +184,34 @@ impl HX for J {
             _ => None,
         }
     }
+    type T = rotala::http::jura::AppState;
+    fn tclient(_name: &str, _data: Penelope) -> Option<Self::T> {
+        None
+    }
+    async fn tclient_call(_c: &mut Self::T, _op: &str, _bt: u64, _t: &[&str]) -> Option<Option<Value>> {
+        None
+    }
+    fn tclient_state(c: &Self::T) -> &Self::A {
+        c
+    }
+}
+
+/// a typed client result against the in-process result (a list the in-process call returns empty may be absent)
+fn same_result(got: &Option<Value>, want: &Option<Value>) -> bool {
+    match (got, want) {
+        (None, None) => true,
+        (Some(g), Some(w)) => {
+            let mut w = w.clone();
+            if let (Some(wo), Some(go)) = (w.as_object_mut(), g.as_object()) {
+                let empty: Vec<String> = wo.iter().filter(|(k, v)| !go.contains_key(*k) && v.as_array().map(|a| a.is_empty()).unwrap_or(false)).map(|(k, _)| k.clone()).collect();
+                for k in empty {
+                    wo.remove(&k);
+                }
+            }
+            canon_eq(&canon(g, ""), &canon(&w, ""))
+        }
+        _ => false,
+    }
 }
 
 fn quotes_value(q: Vec<PenelopeQuote>) -> Value {
@@ -211,6 +258,7 @@ async fn run_async<H: HX>(ops: &str, annot: &str, imp: &str) {
         let mut j = i;
         let mut start: Option<(web::Data<Mutex<H::A>>, H::A)> = None;
         let mut third: Option<H::A> = None;
+        let mut tcl: Option<H::T> = None;
         while j < lines.len() {
             let line = &lines[j];
             let t: Vec<&str> = line.split(' ').filter(|x| !x.is_empty()).collect();
@@ -240,6 +288,8 @@ async fn run_async<H: HX>(ops: &str, annot: &str, imp: &str) {
                     match catch(move || (H::A::single(&name, d1), H::A::single(&name, d2), H::A::single(&name, d3))) {
                         Some((a, b, c)) => {
                             third = Some(c);
+                            let (nm, d4) = (t[1].to_string(), datasets.get(t[1]).cloned().unwrap());
+                            tcl = catch(move || H::tclient(&nm, d4)).flatten();
                             start = Some((web::Data::new(Mutex::new(a)), b));
                             out.emit(line, "ok");
                         }
@@ -283,6 +333,7 @@ async fn run_async<H: HX>(ops: &str, annot: &str, imp: &str) {
                 let r1 = catch(|| data.lock().unwrap().new_backtest(t[1]));
                 let r2 = catch(|| direct.new_backtest(t[1]));
                 let _ = catch(|| data3.lock().unwrap_or_else(|e| e.into_inner()).new_backtest(t[1]));
+                tcl = None; // the test client has no such call: it drops out of the case here
                 out.emit(line, &format!("NB {} ; EQ {}", r1.flatten().map(|x| x.to_string()).unwrap_or("-".into()), r1 == r2));
                 continue;
             }
@@ -394,7 +445,24 @@ async fn run_async<H: HX>(ops: &str, annot: &str, imp: &str) {
                     }
                 },
             };
-            out.emit(&ann, &format!("ST {status} ; J {jtxt} ; EQ {eq} ; SEQ {seq} ; CL {cl}"));
+            // and through the in-process test client (Uist, `single` cases)
+            let tc = match tcl.as_mut() {
+                None => "-".to_string(),
+                Some(c) => match H::tclient_call(c, t[0], bt, &t).await {
+                    None => "-".to_string(),
+                    Some(got4) => {
+                        out.stats.bump(&format!("testclient_{}_{}", t[0], if got4.is_some() { "ok" } else { "err" }));
+                        let h = H::tclient_state(c);
+                        let st4 = canon_eq(&h.snap(bt).unwrap_or_default(), &direct.snap(bt).unwrap_or_default()) && h.clock(bt) == direct.clock(bt) && h.last() == direct.last();
+                        let ok = same_result(&got4, &want) && st4;
+                        if !ok {
+                            out.stats.bump("test_client_differs_from_in_process");
+                        }
+                        ok.to_string()
+                    }
+                },
+            };
+            out.emit(&ann, &format!("ST {status} ; J {jtxt} ; EQ {eq} ; SEQ {seq} ; CL {cl} ; TC {tc}"));
         }
         i = k;
     }
